@@ -241,7 +241,26 @@ def run(v):
             failures.append((f"{PROP}:Hypergraph.{ops[-1][0]}:{d.split(' ')[1]}",
                              {"what": d, "history": HC.jsonable(ops), "step": i}))
     mism, errors = HC.eval_histories(PROP, hgsim, recs, COQ_IMPORT, PROJ)
+    # the same alphabet with explicit integer ids handed over as numpy integers / whole floats
+    hgsim.PRESENT = random.Random(C.seed() * 31 + 4)
+    try:
+        recs_p = HC.gen_histories(hgsim, max(150, p["n_cases"] // 4), p["max_len"], C.seed() + 3)
+        mism_p, errors_p = HC.eval_histories(PROP, hgsim, recs_p, COQ_IMPORT, PROJ)
+    finally:
+        hgsim.PRESENT = None
+    errors += errors_p
+    for r in recs_p:
+        f = oracle_history(r)
+        if f:
+            i, d = f
+            failures.append((f"{PROP}:Hypergraph.{r['ops'][i][0]}:intlike:{d.split(' ')[1]}",
+                             {"what": d + " (explicit integer ids presented as numpy integers / whole floats)",
+                              "history": HC.jsonable(r["ops"][:i + 1]), "step": i, "presentation": "intlike"}))
     reports = []
+    for ci, si in mism_p[:3]:
+        reports.append({"correspondence": f"Model.HgCheck.mismatches {PROJ} (explicit integer ids presented as numpy integers / whole floats)",
+                        "history": HC.jsonable(recs_p[ci]["ops"][:si + 1]), "step": si,
+                        "implementation_last": HC.jsonable(recs_p[ci]["obs"][min(si, len(recs_p[ci]["obs"]) - 1)])})
     for ci, si in mism[:3]:
         ops = recs[ci]["ops"][:si + 1]
         small = HC.shrink(PROP, hgsim, ops, COQ_IMPORT, PROJ)
@@ -284,7 +303,8 @@ def run(v):
     failures += exotic_id_probe()
     st = HC.stats(recs)
     v.coverage.update({
-        "evaluations": len(recs) + extra_cases + done,
+        "evaluations": len(recs) + len(recs_p) + extra_cases + done,
+        "intlike_id_histories": len(recs_p),
         "other_class_histories": extra_cases,
         "distinct_nontrivial": st.pop("distinct_nontrivial"),
         "rule": "Hypergraph edit histories (as C01) compared with the model on edge tables, attribute values, "
